@@ -902,3 +902,49 @@ def optional_number_truthiness(ctx, funcs, rule="LINT-n"):
                       f"`{hit}` is an optional number (the getter is declared Optional[...]): the truthiness test treats the value 0 like None, so e.g. an element with end = 0 "
                       f"(never active) is handled as if it had no end; test `is not None` instead")
   return n
+
+
+# (o) -------------------------------------------------------------------------------------
+def falsy_mapping_default(ctx, modules, rule="LINT-o"):
+  """`v = d.get(k)` ... `if not v [and ..]: v = <default>` / `v = v or <default>` / `v if v else <default>`: a value of any
+  type looked up in a mapping (a configuration dictionary, parsed JSON) is replaced by the default when it is falsy, so a
+  configured 0, False or "" silently turns into the default.  Counted: every local bound to a `.get(..)` result in the modules."""
+  n = 0
+  for m in _iter_modules(ctx, modules):
+    for fn in [x for x in ast.walk(m.tree) if isinstance(x, (ast.FunctionDef, ast.AsyncFunctionDef))]:
+      got = {}
+      for st in ast.walk(fn):
+        if isinstance(st, ast.Assign) and len(st.targets) == 1 and isinstance(st.targets[0], ast.Name) and isinstance(st.value, ast.Call) \
+            and isinstance(st.value.func, ast.Attribute) and st.value.func.attr == "get" and 1 <= len(st.value.args) <= 2:
+          got[st.targets[0].id] = st
+      for name, src in got.items():
+        n += 1
+        ctx.unit(m)
+
+        def truthy_use(t):
+          """bare `name` / `not name` as (a conjunct / disjunct of) a test"""
+          if isinstance(t, ast.Name):
+            return t.id == name
+          if isinstance(t, ast.UnaryOp) and isinstance(t.op, ast.Not):
+            return truthy_use(t.operand)
+          if isinstance(t, ast.BoolOp):
+            return any(truthy_use(v) for v in t.values)
+          return False
+        hit = None
+        for node in ast.walk(fn):
+          if isinstance(node, ast.If) and truthy_use(node.test):
+            blocks = node.body + node.orelse
+            if any(isinstance(a, ast.Assign) and any(isinstance(t, ast.Name) and t.id == name for t in a.targets) for b in blocks for a in ast.walk(b)):
+              hit = node
+          elif isinstance(node, ast.IfExp) and truthy_use(node.test) and isinstance(getattr(node, "_parent", None), ast.Assign):
+            hit = node
+          elif isinstance(node, ast.BoolOp) and isinstance(node.op, ast.Or) and isinstance(node.values[0], ast.Name) and node.values[0].id == name \
+              and isinstance(getattr(node, "_parent", None), (ast.Assign, ast.keyword, ast.Call, ast.Return)):
+            hit = node
+        key = f"{ctx.ix.scope_name(m, src)}|{name} = {short(src.value, 50)}"
+        if hit is not None:
+          ctx.bad(rule, key, ctx.where(m, hit), f"`{name}` comes from `{short(src.value, 50)}` and `{short(hit.test if isinstance(hit, (ast.If, ast.IfExp)) else hit, 60)}` selects the default by truthiness: "
+                  "a configured 0, False or empty string is replaced by the default as if it were absent")
+        else:
+          ctx.ok(rule, key, ctx.where(m, src), "not defaulted by truthiness")
+  return n
